@@ -314,7 +314,9 @@ class MessageManager(ClientLike):
                 self.remove_module(module)
                 return False
 
-            for m in self.modules.values():
+            # iterate over a copy: the debug log below is itself forwarded, and a failed
+            # delivery removes that subscriber from the module table
+            for m in list(self.modules.values()):
                 if m is module:
                     continue
 
